@@ -78,6 +78,10 @@ var targets = []string{
 	"RouterJSR311.detectDispatcher",
 	"RouterJSR311.SelectRoute",
 	"wantsCompressedResponse",
+	"newPathExpression",
+	"Route.postBuild",
+	"RouteBuilder.copyDefaults",
+	"RouteBuilder.Build",
 	"insertMime",
 	"sortedMimes",
 	"Response.EntityWriter",
@@ -115,6 +119,8 @@ var externs = map[string]string{
 	"strings.TrimSpace":               "Str → Str",
 	"strings.ToLower":                 "Str → Str",
 	"strconv.Itoa":                    "Int → Str",
+	"regexp.Compile":                  "Str → Regexp × GoErr",
+	"nameOfFunction":                  "Option Opaque → Str",
 	"strconv.ParseFloat":              "Str → Int → GoFloat × GoErr",
 	"trimOWS":                         "Str → Str",
 	"entityAccessRegistry.accessorAt": "Str → GoAccessor × Bool",
@@ -160,6 +166,7 @@ var structFields = map[string]map[string]ast.Expr{} // struct -> field -> type
 var constVals = map[string]ast.Expr{}               // package constants with a literal value
 var pkgVars = map[string]ast.Expr{}                 // package variables: name -> declared type or initial value
 var pkgVarTypes = map[string]ast.Expr{}             // package variables with a declared type
+var embedded = map[string][]string{}                // struct -> embedded package structs (their fields are promoted)
 var isTarget = map[string]bool{}
 var extUsed = map[string]string{} // Ext field -> Lean type
 
@@ -920,6 +927,17 @@ func (t *tr) stmt(ind int, s ast.Stmt) {
 		}
 		fail("defer %s", src(x.Call))
 	case *ast.ExprStmt:
+		if c, ok := x.X.(*ast.CallExpr); ok {
+			switch src(c.Fun) {
+			case "log.Printf", "log.Print", "log.Println":
+				// log output is not part of what a call computes
+				return
+			case "os.Exit":
+				// the process ends: no result, like a panic
+				t.line(ind, "failure")
+				return
+			}
+		}
 		if c, ok := x.X.(*ast.CallExpr); ok && isLockCall(c) {
 			// Lock / Unlock of a mutex field: no effect on what a single call computes; that every access
 			// holds its lock is the subject of the generated facts of C12
@@ -1706,6 +1724,11 @@ func main() {
 									m[n.Name] = f.Type
 									structFieldOrder[s.Name.Name] = append(structFieldOrder[s.Name.Name], n.Name)
 								}
+								if len(f.Names) == 0 {
+									if id, ok := f.Type.(*ast.Ident); ok {
+										embedded[s.Name.Name] = append(embedded[s.Name.Name], id.Name)
+									}
+								}
 							}
 							structFields[s.Name.Name] = m
 						} else {
@@ -1738,6 +1761,17 @@ func main() {
 	}
 	for _, st := range genStructs {
 		isGenStruct[st] = true
+	}
+	// promoted fields of embedded structs
+	for st, embs := range embedded {
+		for _, e := range embs {
+			for _, f := range structFieldOrder[e] {
+				if _, ok := structFields[st][f]; !ok {
+					structFields[st][f] = structFields[e][f]
+					structFieldOrder[st] = append(structFieldOrder[st], f)
+				}
+			}
+		}
 	}
 	// first pass: which struct fields and Ext fields are used (the structures are emitted with these only),
 	// and which un-listed package-level callees are needed: those become targets placed before their caller
